@@ -1255,26 +1255,26 @@ _NT = ("non-trivial = the draw succeeded and the operator is composite (not a ba
        "inverse or the sampling dtype is complex; every case also checks S*0 = 0 and linearity in the normals")
 
 SUBS = [
-    Sub(name="scaling", check=check_cov, strategy=r_scaling, quick=1200, thorough=20000, shards=4,
+    Sub(name="scaling", check=check_cov, strategy=r_scaling, quick=800, thorough=20000, shards=4,
         rule="ScalingOperator on DomainTuples and MultiDomains (dtype dicts), flipped, zero factor forward, "
              "float32/complex64 too; " + _NT),
-    Sub(name="diagonal", check=check_cov, strategy=r_diagonal, quick=1600, thorough=30000, shards=4,
+    Sub(name="diagonal", check=check_cov, strategy=r_diagonal, quick=1200, thorough=30000, shards=4,
         rule="DiagonalOperator full and partial space, int/float diagonals, zeros (semi-definite) where the "
              "covariance exists, up to 3 nested .inverse/.adjoint flips; " + _NT),
-    Sub(name="sandwich", check=check_cov, strategy=r_sandwich, quick=3200, thorough=40000, shards=8,
+    Sub(name="sandwich", check=check_cov, strategy=r_sandwich, quick=2000, thorough=40000, shards=8,
         rule="SandwichOperator.make with invertible buns (scaling, diagonal, FFT/Hartley both directions, dense, "
              "chains, flipped) and non-invertible buns (MatrixProductOperator, rectangular dense), nested "
              "cheeses, cheese=None with sampling_dtype, OperatorAdapter flips; " + _NT),
-    Sub(name="block_diagonal", check=check_cov, strategy=r_block, quick=3200, thorough=40000, shards=8,
+    Sub(name="block_diagonal", check=check_cov, strategy=r_block, quick=2000, thorough=40000, shards=8,
         rule="BlockDiagonalOperator with mixed real/complex sampling dtypes, nested entries, sums of block "
              "operators on equal / disjoint / overlapping MultiDomains, ScalingOperator on MultiDomains, "
              "SamplingEnabler and sandwiches on MultiDomains; " + _NT),
-    Sub(name="sums_enabler", check=check_cov, strategy=r_sums, quick=3200, thorough=40000, shards=8,
+    Sub(name="sums_enabler", check=check_cov, strategy=r_sums, quick=2000, thorough=40000, shards=8,
         rule="SumOperator forward draws, PSD differences A-B (must have covariance A-B or refuse), "
              "SamplingEnabler (CG with a recording controller, tol_abs 1e-12; comparison tolerance derived "
              "from the recorded residual), with/without preconditioner and start_from_zero, its .inverse, "
              "sandwiches around it, InversionEnabler; " + _NT),
-    Sub(name="refusal", check=check_cov, strategy=r_refusal, quick=2400, thorough=30000, shards=8,
+    Sub(name="refusal", check=check_cov, strategy=r_refusal, quick=1600, thorough=30000, shards=8,
         rule="operators that cannot represent a covariance: no sampling dtype (leaf, cheese=None, missing "
              "block entry), negative or complex diagonal/factor, zero eigenvalue drawn from the inverse, "
              "singular sandwich (wide bun) drawn from the inverse, negative-definite difference; bare, "
